@@ -186,6 +186,30 @@ def r_delimiters(mod, rep, R='R5.1'):
     else:
         rep.check(not swallowed, R, w, 'cat_split:run-excludes-delimiters', 'the atom-run alternative excludes every delimiter, so each delimiter is a token of its own',
                   'the atom-run alternative of the tokeniser does not exclude the delimiter(s) %s: they are glued onto the preceding atom' % sorted(swallowed))
+    # the tokeniser sees the whole text it was given: nothing is cut off or rewritten before (a category is every character
+    # of its text -- "[conj]" at the end of NP[conj] is a feature like any other)
+    pfn = mod.get('Category.parse')
+    pparams = [a.arg for a in pfn.args.args if a.arg not in ('cls', 'self')]
+    subjects = []
+    for st, o in SymExec(pfn, unroll=1).run():
+        for c_ in all_calls(st):
+            if c_[1][0] == 'attr' and c_[1][1] == N(TOK) and c_[1][2] in ('sub', 'split', 'findall', 'finditer'):
+                sub_ = c_[2][1] if c_[1][2] == 'sub' and len(c_[2]) > 1 else (c_[2][0] if c_[2] else None)
+                if sub_ is not None and sub_ not in subjects:
+                    subjects.append(sub_)
+
+    def whole(t):
+        while t[0] == 'call' and t[1][0] == 'attr' and ((t[1][2] in ('strip', 'lstrip', 'rstrip') and not t[2]) or (
+                t[1][2] == 'replace' and len(t[2]) == 2 and t[2][0][0] == 'const' and isinstance(t[2][0][1], str) and t[2][0][1].strip() == '' and t[2][1] == C(''))):
+            t = t[1][1]
+        if t[0] == 'ifexp':
+            return whole(t[2]) and whole(t[3])
+        return t[0] == 'name' and t[1] in pparams
+    if subjects and pparams:
+        cut = [show(t)[:60] for t in subjects if not whole(t)]
+        rep.check(not cut, R, '%s:%s Category.parse' % (REL, pfn.lineno), 'parse:whole-text',
+                  'the tokeniser is applied to the text as given (only blanks are removed)',
+                  'the text is changed before it is tokenised: %s -- a category whose text has that form reads back as a different category' % cut[:2])
     # what the printers emit: literal characters of every text the two __str__ can return (helpers inlined)
     emitted = set()
     for q in ('Atom.__str__', 'Functor.__str__'):
